@@ -16,7 +16,9 @@ EXPLANATION = (
     "the entity) - same member, same entity, every path. R4 (allocator impls): allocate overwrites mapping[id] = entity on every path; on the "
     "explicit-id path the counter ends above the id (it is stored id + 1 or a max with it, or the edge taken implies counter > id) and never moves "
     "backwards (a store derived from the id is guarded by an edge that implies counter <= id, or is max(counter, ..) / counter + c) - a small "
-    "interval argument over the branch conditions; shapes it cannot relate are undetermined, not violations."
+    "interval argument over the branch conditions, first by pattern and, where the branches of allocate() were merged (`id.unwrap_or(counter)`), by a "
+    "path-wise difference-bound evaluation (values as id+k / counter+k / max, d = id - counter as an interval refined by each comparison taken); "
+    "shapes it cannot relate are undetermined, not violations."
 )
 NOT_DECIDED = ("uniqueness of marker ids as a theorem over histories (R4 decides the two counter invariants it rests on: past an explicit id, never "
                "backwards); overflow of the counter; interleavings with entity deletion and allocator maintenance")
